@@ -11,3 +11,4 @@ import WcModel.Properties.C13
 #print axioms WcModel.C13.shortcut_duplicates
 #print axioms WcModel.C13.shortcut_sound_of_injective
 #print axioms WcModel.C13.shortcut_case_variants
+#print axioms WcModel.C13.shortcut_only_under_scandotdir
